@@ -113,6 +113,11 @@ _BUILTINS: Dict[str, Callable] = {
     "chr": chr,
     "frozenset": frozenset,
 }
+import collections as _collections  # noqa: E402
+
+_STD_CONTAINERS = {"collections.defaultdict": _collections.defaultdict, "defaultdict": _collections.defaultdict,
+                   "collections.Counter": _collections.Counter, "Counter": _collections.Counter,
+                   "collections.OrderedDict": _collections.OrderedDict, "OrderedDict": _collections.OrderedDict}
 _TYPES = {"bool": bool, "int": int, "float": float, "str": str, "list": list, "tuple": tuple,
           "dict": dict, "set": set, "slice": slice}
 _STR_METHODS = {
@@ -415,6 +420,8 @@ class Evaluator:
             raise Unfoldable("**kwargs call")
         if key in self.funcs:
             return self.funcs[key](*args, **kwargs)
+        if key in _STD_CONTAINERS:
+            return self._builtin(_STD_CONTAINERS[key], args, kwargs)
         if isinstance(n.func, ast.Name):
             if n.func.id not in self.locals and n.func.id in self.bound and callable(self.bound[n.func.id]):
                 return self.bound[n.func.id](*args, **kwargs)
